@@ -244,4 +244,28 @@ PROPS = {
                         "where the RFCs are silent (records after the closing SOA, a foreign SOA inside an AXFR, IXFR difference sequences not starting at the "
                         "receiver's serial, a fault after the transfer was already complete) only absence of panics and of partial versions is required"],
     },
+    "C11": {
+        "level": "exploration",
+        "features": ["crypto", "hooks"],
+        "stages": [
+            {"mode": "native", "cpu_budget": 300},
+            {"mode": "asan", "shards": 4, "scale": 0.1, "tiers": ["thorough"], "cpu_budget": 900},
+        ],
+        "offline": ["tsig_ref.py"],
+        "rule": "an evaluation is one verification: (a) an honest request / response / BADTIME response between ClientTransaction and ServerTransaction with a random "
+                "key (4 algorithms, secrets of 1-200 octets, signing_len and min_mac_len anywhere in the legal range), messages built through the library's "
+                "builder (0-2 questions, opaque records of random types in all sections, OPT), time signed anywhere in 48 bits, fudge in {0,1,300,65535,random}, "
+                "checked at time signed + {-f-1,-f,-1,0,1,f,f+1,...}; (b) each message of a multi-message response: ServerSequence against the reference, and a "
+                "reference RFC 8945 server that leaves runs of 0..100 messages unsigned (sequences of up to 135 messages, unsigned tail, one message altered in "
+                "flight) against ClientSequence; (c) every single-bit flip of a signed request (server side) and of a signed response (client side), and 25 "
+                "structural edits (TSIG removed / twice / not last / in another section, key name, algorithm, original ID, time, fudge, error, other data, MAC "
+                "truncated within / to / below the limits, extended, class, TTL). Oracle: an independent RFC 8945 signer/verifier over raw octets (own parser, own "
+                "digest construction; only the HMAC primitive is ring's, and that is recomputed offline with Python hmac/hashlib for every logged MAC): the "
+                "library accepts iff the reference does, MACs are equal octet for octet, the error class is the RFC's for structural edits, verified messages "
+                "equal the pre-signing octets, no panic (the error response is built for every server-side error); distinct = (algorithm, truncation, "
+                "fudge class, clock side, outcome, size class) resp. (sequence length class, gap, tail)",
+        "assumptions": ["'returns the message to its pre-signing octets' is judged on the header and everything up to the last record: Message::remove_last_additional "
+                        "only lowers ARCOUNT, the TSIG RR's octets stay behind the last record where no section reaches them",
+                        "flips the RFC makes irrelevant must be accepted: the two ID octets (the digest uses the original ID), letter case in the key and algorithm names"],
+    },
 }
